@@ -2299,7 +2299,8 @@ class Allocator:
                 allocation = allocs[client][idx]
                 if isinstance(allocation, TaskAllocation):
                     current_tasks.add(allocation.task)
-                elif isinstance(allocation, JoinPoint) and len(current_tasks) > 0:
+                elif isinstance(allocation, JoinPoint) and client == 0 and idx > 0:
+                    # one entry per join point (except for the initial one), also if the schedule element before it is empty
                     tasks.append(current_tasks)
                     current_tasks = set()
 
